@@ -43,7 +43,9 @@ def _private_copies():
     os.makedirs(base, exist_ok=True)
     with open(os.path.join(base, ".lock"), "w") as lk:
         fcntl.flock(lk, fcntl.LOCK_EX)
-        subprocess.run(["rsync", "-a", "--delete", "--exclude", "verif.lock", os.path.join(VERIF, "lean") + "/", os.path.join(base, "lean") + "/"], check=True)
+        r = subprocess.run(["rsync", "-a", "--delete", "--exclude", "verif.lock", "--exclude", "audit_*", os.path.join(VERIF, "lean") + "/", os.path.join(base, "lean") + "/"])
+        if r.returncode not in (0, 24):  # 24 = source files vanished (another lake build is running): harmless
+            raise RuntimeError("rsync of the Lean project failed with %d" % r.returncode)
     LEAN = os.path.join(base, "lean")
     OUT = os.path.join(base, "out")
     os.makedirs(OUT, exist_ok=True)
